@@ -5,6 +5,7 @@
    search of tools/p_c13.py. *)
 From Coq Require Import String.
 From SLX Require Import Base gen.Constants gen.OpcodeTable gen.PollSites SymVal Disasm VM proofs.VmBounds proofs.VmWatchdog.
+From SLX Require Import PolledLoop proofs.PolledLoopProofs.
 Open Scope N_scope.
 
 (* a watchdog that never says stop has no influence: two machines that differ only in the polling interval
@@ -44,6 +45,39 @@ Proof. exact exec_instr_polls. Qed.
 Theorem C13_polled_loops_inventory : List.length poll_sites = 11%nat.
 Proof. vm_compute. reflexivity. Qed.
 
+(* ---- the polling scheme of the later stages' loops (PolledLoop.v; the translator checks on every run that each of
+   the eleven polled loops has this shape, including that the counter advances on EVERY iteration) ---- *)
+
+(* never told to stop: the loop's result is the plain fold of its body whatever the interval, the counter advanced
+   once per item, and the polls made are exactly the poll points *)
+Theorem C13_loop_never_stop : forall (A St : Type) (body : A -> St -> option St) k items c p s,
+  match ploop body k items c (mk_wdog p None) s, plain body items s with
+  | LDone s' c' w', Some s'' => s' = s'' /\ c' = c + N.of_nat (length items)
+                                /\ polls w' = p + poll_points k (length items) c /\ stop_from w' = None
+  | LFailed _, None => True
+  | _, _ => False
+  end.
+Proof. exact @never_stop_result. Qed.
+
+(* a watchdog that has turned to stop ends the loop at the next poll point, before that item's body runs, with
+   exactly one more poll *)
+Theorem C13_loop_stops_at_next_poll : forall (A St : Type) (body : A -> St -> option St) k items c p j s,
+  j <= p ->
+  (exists i, (i < length items)%nat /\ (c + N.of_nat i) mod k = 0
+             /\ (forall i', (i' < i)%nat -> (c + N.of_nat i') mod k <> 0)
+             /\ plain body (firstn i items) s <> None) ->
+  exists w, ploop body k items c (mk_wdog p (Some j)) s = LStopped w /\ polls w = p + 1.
+Proof. exact @stops_at_next_poll_point. Qed.
+
+(* polls track the work: n iterations at interval k make between n div k and n div k + 1 polls, from any counter *)
+Theorem C13_loop_poll_rate : forall k n c, 0 < k -> N.of_nat n / k <= poll_points k n c <= N.of_nat n / k + 1.
+Proof. exact poll_points_bounds. Qed.
+
+Example C13_loop_hyps_met :
+  ploop (fun (x : N) (s : N) => Some (s + x)) 3 [1; 2; 3; 4; 5; 6; 7] 0 (mk_wdog 0 (Some 1)) 0 = LStopped (mk_wdog 2 (Some 1))
+  /\ poll_points 3 7 0 = 3.
+Proof. vm_compute. split; reflexivity. Qed.
+
 Example C13_hyps_met :
   let m := init_vm [IOp control_JumpDest; IOp control_Stop] (mk_config 30000000 10 50 250 394 false 1 (Some 0)) in
   stop_at (v_cfg m) = Some 0 /\ 0 <= v_polls m /\ 1 <= poll_every (v_cfg m) /\
@@ -56,3 +90,6 @@ Print Assumptions C13_stops_within_interval.
 Print Assumptions C13_poll_rate.
 Print Assumptions C13_polls_monotone.
 Print Assumptions C13_polled_loops_inventory.
+Print Assumptions C13_loop_never_stop.
+Print Assumptions C13_loop_stops_at_next_poll.
+Print Assumptions C13_loop_poll_rate.
